@@ -284,6 +284,11 @@ func (c16) Gen(r *core.Rand, tier string) interface{} {
 	if r.Chance(1, 4) {
 		s.Again = r.Pick(1, 2, 4, 187, 188, 189, r.Range(1, 400))
 	}
+	if s.Scanner == "bufio" && r.Chance(1, 30) {
+		// the source stalls once: 100 empty reads in a row, then it carries on
+		k := r.Intn(len(s.Reads) + 1)
+		s.Reads = append(s.Reads[:k:k], append([]parties.ReadOp{{Kind: "stall"}}, s.Reads[k:]...)...)
+	}
 	if s.Scanner == "exact" && r.Chance(1, 3) {
 		s.FailReadByte = r.Range(1, 2*len(st)+2)
 		if r.Chance(1, 2) {
@@ -604,6 +609,11 @@ func (c16) Exec(script interface{}, c *core.Ctx) {
 		return
 	case parties.IsReaderFault(err):
 		// legitimate only if the failing Read began before the header's last byte had been delivered
+		if sr.Stalled && errors.Is(err, io.ErrNoProgress) && sr.FirstErr == nil {
+			// the buffering layer gave up on a source that stalled: its error, handed through
+			c.Probe("source_stalled_for_100_reads")
+			return
+		}
 		if sr.FirstErr == nil || (want >= 0 && sr.FirstErrAt >= pre+want+4) {
 			c.Fail("reader_error", "injected_error_surfaced_needlessly", err, want)
 			return
